@@ -112,7 +112,13 @@ def cases(tier, seed):
         for seq in [(a,) for a in QUERIES] + [(a, b) for a in QUERIES for b in QUERIES]:
             out.append({"kind": "geom_history", "elemType": et, "ops": list(seq)})
     for mix in Z.MIXED_2D + Z.MIXED_3D:
-        out.append({"kind": "geom", "elemType": list(mix), "src": "t", "k": 2, "distort": False, "map": "generic"})
+        # k = 2 gives both element groups the same measure (a coincidence that hides mis-weighted group averages): also k = 3, (3, 1)
+        d3 = Z.dim_of(mix[0]) == 3
+        # and cells of different sizes ("kink": groups with different measures AND different centroids)
+        for k in (2, 3, [2, 1, 1] if d3 else [2, 1]):
+            for mp in ("generic", "identity"):
+                for kink in (False, True):
+                    out.append({"kind": "geom", "elemType": list(mix), "src": "t", "k": k, "distort": False, "map": mp, "kink": kink})
     for et in Z.ALL_TYPES:
         d = Z.dim_of(et)
         probs = ["thermal"] if d == 1 else ["thermal", "elastic"]
@@ -260,6 +266,7 @@ def _run_geom(case):
     ets = tuple(et) if isinstance(et, list) else et
     d = Z.dim_of(ets[0] if isinstance(ets, tuple) else ets)
     k, dist = case["k"], case["distort"]
+    k = tuple(k) if isinstance(k, list) else k
     if d == 1:
         zm = Z.template_1d(ets, n=k, graded=dist, L=1.3)
         size = (1.3, 1, 1)
@@ -270,10 +277,12 @@ def _run_geom(case):
         zm = Z.template_3d(ets, k=k, distort=dist)
         size = (1, 1, 1)
     A, b = _map(case["map"], d)
+    if case.get("kink"):
+        zm = zm.kinked(0.5, 0.3)
     zm2 = zm.mapped(A, b)
     mesh = zm2.build()
     v = []
-    key = dict(elemType=str(et), k=k, distort=dist, map=case["map"])
+    key = dict(kink=bool(case.get("kink", False)), elemType=str(et), k=case["k"], distort=dist, map=case["map"])
     meas = {1: "length", 2: "area", 3: "volume"}[d]
     got = getattr(mesh, meas)
     nent = 1
@@ -375,6 +384,21 @@ def _run_geom_history(case):
             v.append(viol("geometry_after_query", f"{et}: after read-only queries {done} measure/centroid/moments changed by {np.abs(obs - ref).max():.3e}",
                           elemType=et, ops="+".join(done)))
             break
+    # the stored nodes are still the nodes that were given, also once the geometry is rebuilt from them (a rigid round trip
+    # through the public API drops every cached geometric factor)
+    if not v:
+        dev = np.abs(np.asarray(mesh.coord, dtype=float) - zm.coords).max()
+        if dev > 0:
+            v.append(viol("geometry_after_query", f"{et}: after read-only queries {done} mesh.coord differs from the nodes given by {dev:.3e}",
+                          elemType=et, ops="+".join(done), stage="coord"))
+        t = np.array([0.25, -0.5, 0.125])
+        mesh.Translate(*t)
+        mesh.Translate(*(-t))
+        obs = _observe_geom(mesh, d)
+        ntr += 2
+        if obs.shape != ref.shape or np.abs(obs - ref).max() > 1e-11 * sc:
+            v.append(viol("geometry_after_query", f"{et}: after read-only queries {done} and a translation there and back, measure/centroid/moments "
+                                                  f"changed by {np.abs(obs - ref).max():.3e}", elemType=et, ops="+".join(done), stage="roundtrip"))
     # the exact values too
     if "measure" in zm.exact and abs(ref[0] - zm.exact["measure"]) > 1e-11 * zm.exact["measure"]:
         v.append(viol("measure", f"{zm.name}: measure {ref[0]!r} exact {zm.exact['measure']!r}", elemType=et, k=0, distort=False, map="generic"))
